@@ -2,52 +2,11 @@
 //! scheduling point, records every decision and can replay a recorded
 //! decision sequence exactly.
 
-use serde::{Deserialize, Serialize};
 use shuttle::scheduler::{Task, TaskId};
 
 use crate::rng::{Hasher64, Rng};
 
-/// Scheduling strategy for one execution.
-#[derive(Clone, Debug, Serialize, Deserialize, PartialEq)]
-pub enum SchedKind {
-    /// Uniform random choice among runnable threads at every point;
-    /// `sticky` percent of the time the current thread is kept if runnable.
-    Random { sticky: u8 },
-    /// PCT: random distinct priorities, `depth - 1` priority change points
-    /// sampled in `1..=est_steps`.
-    Pct { depth: u8, est_steps: u32 },
-    /// Lowest-numbered runnable thread that is not the yielding one, rotating.
-    RoundRobin,
-}
-
-#[derive(Clone, Debug, Serialize, Deserialize, PartialEq)]
-pub struct SchedSpec {
-    pub kind: SchedKind,
-    pub seed: u64,
-    /// If set, these decisions are replayed verbatim (task id per scheduling
-    /// point, then the strategy takes over if the list is exhausted).
-    #[serde(default, skip_serializing_if = "Option::is_none")]
-    pub replay: Option<Vec<u16>>,
-    /// Replay expressed as context switches only: (decision index, task).
-    /// Between listed points the current task is kept while runnable, else
-    /// the lowest-numbered runnable task runs.
-    #[serde(default, skip_serializing_if = "Option::is_none")]
-    pub switches: Option<Vec<(u32, u16)>>,
-}
-
-#[derive(Clone, Debug, Default)]
-pub struct SchedReport {
-    /// Task chosen at every scheduling point.
-    pub decisions: Vec<u16>,
-    /// Number of scheduling points with more than one runnable task.
-    pub choice_points: u32,
-    pub context_switches: u32,
-    pub decision_hash: u64,
-    pub max_tasks: u16,
-    pub randoms: u32,
-    /// Set if a replayed decision named a task that was not runnable.
-    pub replay_diverged: bool,
-}
+pub use crate::outcome::{SchedKind, SchedReport, SchedSpec};
 
 pub struct RecSched {
     spec: SchedSpec,
